@@ -70,5 +70,14 @@ def run_history(rec, cfg, script, sid=1, variant=0):
         elif act == "set-keys":
             sess.set_keys(cfg)
             req = None
+        elif act == "set-keys-bad":
+            # a botched key rotation: unusable key material (empty password / localized key of the wrong size) in the privacy or the auth key
+            klen = 16 if cfg.auth == "md5" else 20
+            bad = [dict(pkt="password", pkm=b""), dict(pkt="localized", pkm=bytes(klen - 3)), dict(akt="password", akm=b""),
+                   dict(akt="localized", akm=bytes(klen + 1))][(variant + nsend) % 4]
+            f = dict(akt=cfg.akt, akm=cfg.akm, pkt=cfg.pkt, pkm=cfg.pkm)
+            f.update(bad)
+            sess.set_keys(rawdrv.Cfg("v3", user=cfg.user, engine=cfg.engine, auth=cfg.auth, priv=cfg.priv, **f))
+            req = None
     sess.close()
     return first, rec.n
